@@ -150,6 +150,7 @@ def C04(chk):
                 invariants=["Agree", "NoDrift"], frame=(8, 2, 1, ("a", "eac")) if q else (9, 4, 2, ("a", "eac")))
     apply_l1(chk, ["wm", "lc1", "lc3", "lc4", "bidi", "pp"], nontrivial_key="runs")
     l3_run(chk, "usernames-limits", driver="limits", per_string=2, kinds=["enforce"], profiles=profs, seed_offset=5)
+    l3_run(chk, "usernames-marks", driver="marks", per_string=1, kinds=["enforce"], profiles=profs, seed_offset=6)
     long_run(chk, profiles=profs, ops=["prepare", "enforce"], max_bytes=5000 if q else 70000)
     l3_run(chk, "usernames-echo", driver="echo", strings=24 if q else 200, profiles=profs, max_len=6, seed_offset=11)
     race_run(chk, processes=40 if q else 400, long_processes=1 if q else 10, judge=False)
@@ -486,6 +487,7 @@ def C08(chk):
     chk.cov["distinct_nontrivial"] += summary["changed"]
     chk.sample({"layer": "sweep", "summary": summary})
     l3_run(chk, "enforce-limits", driver="limits", per_string=2, kinds=["enforce"], profiles=allp, seed_offset=5)
+    l3_run(chk, "enforce-marks", driver="marks", per_string=2, kinds=["enforce", "normalization_rule"], profiles=allp, seed_offset=6)
     long_run(chk, profiles=allp, ops=["enforce"])
     l3_run(chk, "enforce-echo", driver="echo", strings=24 if q else 200, profiles=allp, max_len=6, seed_offset=11)
     race_run(chk, processes=40 if q else 400, long_processes=1 if q else 10, judge=False)
